@@ -426,7 +426,7 @@ static int GC_Show(var self, var out, int pos) {
   return print_to(out, pos, "+------------------->\n");
 }
 
-void GC_Sweep(struct GC* gc) {
+size_t GC_Sweep(struct GC* gc) {
    
   gc->freelist = realloc(gc->freelist, sizeof(var) * gc->nitems);
   gc->freenum = 0;
@@ -483,9 +483,13 @@ void GC_Sweep(struct GC* gc) {
     }
   }
   
+  size_t swept = gc->freenum;
+  
   free(gc->freelist);
   gc->freelist = NULL;
   gc->freenum = 0;
+  
+  return swept;
   
 }
 
@@ -507,7 +511,8 @@ static void GC_New(var self, var args) {
 
 static void GC_Del(var self) {
   struct GC* gc = self;
-  GC_Sweep(gc);
+  /* What destructors allocate during a sweep is swept in turn */
+  while (GC_Sweep(gc) > 0) {}
   free(gc->entries);
   free(gc->freelist);
   rem(current(Thread), $S(GC_TLS_KEY));
@@ -522,7 +527,12 @@ static void GC_Set(var self, var key, var val) {
   gc->minptr = (uintptr_t)key < gc->minptr ? (uintptr_t)key : gc->minptr;
   GC_Resize_More(gc);
   GC_Set_Ptr(gc, key, (bool)c_int(val));
-  if (gc->nitems > gc->mitems) {
+  /*
+  ** A destructor run by a sweep may allocate. Starting another collection
+  ** from there would discard the list of objects the sweep in progress has
+  ** still to finalise, so it is left to the next allocation after the sweep.
+  */
+  if (gc->nitems > gc->mitems and gc->freelist is NULL) {
     GC_Mark(gc);
     GC_Sweep(gc);
   }
